@@ -15,6 +15,8 @@
  *   every <id> <api> <savecfg> <lo> <hi>   -> "E <count> ok" | "E <count> bad <k> | Dref | Dgot"
  *   one <id> <api> <savecfg> <csize>       -> "D ..."  suspending source, constant chunk size
  *   rand <id> <api> <savecfg> <seed> <count> -> "R <count> ok" | "R <count> bad <seed_i> <n> sizes.. | Dref | Dgot"
+ *   coef <id>                              -> "S nmcu=.. hash=.. warn=.." coefficients of a single-scan sequential stream,
+ *                                             MCU order, zigzag order (same line as ml/C09_driver.ml `s`)
  *   enc <w> <h> <ncomp> <sub> <quality> <restart> <imgseed> <bufsize> <seed>
  *        -> "C ok <len> <hash>" | "C bad <len_ref> <hash_ref> <len_got> <hash_got> <first_diff>"
  *   api: 0 = jpeg_read_header/start_decompress/read_scanlines/finish_decompress
@@ -458,6 +460,48 @@ static void print_hdr(int id, int savecfg)
   jpeg_destroy_decompress(&c);
 }
 
+/* ------------------------------------ coefficients of the first scan (coef) */
+static void print_coefs(int id)
+{
+  struct jpeg_decompress_struct c; struct my_err e; jvirt_barray_ptr *arr; uint64_t h = FNV0; long nmcu = 0;
+  c.err = jpeg_std_error(&e.pub); e.pub.error_exit = my_exit; e.pub.emit_message = my_emit; e.pub.output_message = my_output;
+  memset(e.wcount, 0, sizeof(e.wcount));
+  if (setjmp(e.jb)) { printf("S err %d\n", e.pub.msg_code); jpeg_destroy_decompress(&c); return; }
+  jpeg_create_decompress(&c);
+  jpeg_mem_src(&c, S[id], (unsigned long)SL[id]);
+  jpeg_read_header(&c, TRUE);
+  arr = jpeg_read_coefficients(&c);
+  {
+    int hmax = c.max_h_samp_factor, vmax = c.max_v_samp_factor, ci, x, y, k;
+    if (c.num_components == 1) {
+      jpeg_component_info *cp = &c.comp_info[0]; JDIMENSION r, col;
+      for (r = 0; r < cp->height_in_blocks; r++) {
+        JBLOCKARRAY ba = (*c.mem->access_virt_barray)((j_common_ptr)&c, arr[0], r, 1, FALSE);
+        for (col = 0; col < cp->width_in_blocks; col++) {
+          for (k = 0; k < 64; k++) { int32_t v = ba[0][col][jpeg_natural_order[k]]; h = fnv(h, &v, 4); }
+          nmcu++;
+        }
+      }
+    } else {
+      JDIMENSION mrows = (c.image_height + 8 * vmax - 1) / (8 * vmax), mcols = (c.image_width + 8 * hmax - 1) / (8 * hmax), mr, mc;
+      for (mr = 0; mr < mrows; mr++) for (mc = 0; mc < mcols; mc++) {
+        for (ci = 0; ci < c.num_components; ci++) {
+          jpeg_component_info *cp = &c.comp_info[ci];
+          for (y = 0; y < cp->v_samp_factor; y++) {
+            JBLOCKARRAY ba = (*c.mem->access_virt_barray)((j_common_ptr)&c, arr[ci], mr * cp->v_samp_factor + y, 1, FALSE);
+            for (x = 0; x < cp->h_samp_factor; x++)
+              for (k = 0; k < 64; k++) { int32_t v = ba[0][mc * cp->h_samp_factor + x][jpeg_natural_order[k]]; h = fnv(h, &v, 4); }
+          }
+        }
+        nmcu++;
+      }
+    }
+  }
+  printf("S nmcu=%ld hash=%016llx warn=%ld\n", nmcu, (unsigned long long)h, c.err->num_warnings);
+  jpeg_finish_decompress(&c);
+  jpeg_destroy_decompress(&c);
+}
+
 /* --------------------------------------------------- suspending encoder */
 typedef struct {
   struct jpeg_destination_mgr pub;
@@ -593,6 +637,8 @@ int main(void)
       SL[id] = n; printf("load %d %lu\n", id, (unsigned long)n);
     } else if (!strcmp(cmd, "hdr")) {
       int id, sv; sscanf(line + off, "%d %d", &id, &sv); print_hdr(id, sv);
+    } else if (!strcmp(cmd, "coef")) {
+      int id; sscanf(line + off, "%d", &id); print_coefs(id);
     } else if (!strcmp(cmd, "ref") || !strcmp(cmd, "stdio")) {
       int id, api, sv; digest d; sscanf(line + off, "%d %d %d", &id, &api, &sv);
       decode(id, api, sv, cmd[0] == 'r' ? 0 : 1, NULL, &d); digest_print("D", &d); printf("\n");
